@@ -460,37 +460,39 @@ def relocStep (s : State) (base : BitVec 64) (acc : RelocAcc) (re : Reloc) : Exc
       | _, _ => .error .invalidRelocEntry
     | _ => .error .invalidRelocEntry
 
-def relocLoop (s : State) (base : BitVec 64) : List Reloc → RelocAcc → Except Err RelocAcc
-  | [], acc => .ok acc
+def relocLoop (s : State) (base : BitVec 64) : List Reloc → RelocAcc → RelocAcc × Err
+  | [], acc => (acc, .ok)
   | re :: rest, acc =>
     match relocStep s base acc re with
     | .ok acc' => relocLoop s base rest acc'
-    | .error e => .error e
+    | .error e => (acc, e)
 
 /-- `CodeHolder::relocate_to_base(base, summary)`; returns the code size reduction.
 Follows the repaired tail (fixes/C04-1.patch): the address table's *buffer size* is set to the used slots whether or
 not the table is the last section; only the *virtual size* shrink (and the reported reduction) needs it to be last.
-On an error the C++ has already patched the earlier entries; the model returns the state before the call (the
-harness compares only the error code in that case). -/
+On an error the entries before the failing one stay patched (as in the C++), the tail is skipped. -/
 def relocate (s : State) (base : BitVec 64) : State × Err × Nat :=
   if base = noBase then (s, .invalidArgument, 0) else
   let s0 := { s with base := base }
-  -- address table bytes written during the loop live beyond `buf.length` until the tail sets the size: the model
-  -- keeps them in `buf` and truncates at the end
-  let tabLen0 := match s.addrTabSec.bind (fun i => s.secs[i]?) with | some t => t.buf.length | none => 0
   match relocLoop s0 base s0.relocs { secs := s0.secs, addrTab := s0.addrTab, nSlots := 0 } with
-  | .error e => ({ s with base := base }, e, 0)
-  | .ok acc =>
+  | (acc, .ok) =>
     match s.addrTabSec with
     | none => ({ s0 with secs := acc.secs, addrTab := acc.addrTab }, .ok, 0)
     | some ats =>
       let tabSize := acc.nSlots * s.arch.regSize
       let isLast := (byOrder acc.secs).getLast? = some ats
       let reserved := match acc.secs[ats]? with | some t => t.virtSize.toNat | none => 0
+      -- slot bytes were written into the reserved capacity; the tail sets the buffer size
       let secs1 := modifySec acc.secs ats (fun t =>
-        { t with buf := (padTo t.buf tabSize).take (max tabSize tabLen0),
+        { t with buf := (padTo t.buf tabSize).take tabSize,
                  virtSize := if isLast then BitVec.ofNat 64 tabSize else t.virtSize })
       ({ s0 with secs := secs1, addrTab := acc.addrTab }, .ok, if isLast then reserved - tabSize else 0)
+  | (acc, e) =>
+    -- slot bytes written so far live beyond the (zero) size of the address table buffer: invisible
+    let secs1 := match s.addrTabSec with
+      | some ats => modifySec acc.secs ats (fun t => { t with buf := [] })
+      | none => acc.secs
+    ({ s0 with secs := secs1, addrTab := acc.addrTab }, e, 0)
 
 /-- `CodeHolder::code_size()` -/
 def codeSize (s : State) : BitVec 64 :=
